@@ -46,6 +46,10 @@ def warm_start(
     pcount = f.variables["particle_count"][-1]
     pend = pstart + pcount
     pid_max = np.max(f.variables["pid"][:]) + 1
+    # Particles that died before the records of this file are only counted
+    # by the particle dimension (length of the particle variables)
+    if "particle" in f.dimensions:
+        pid_max = max(pid_max, len(f.dimensions["particle"]))
 
     logger.info("antall partikler = %s", pcount)
 
